@@ -39,6 +39,7 @@ func sumOf(b []byte) string {
 }
 
 func writeChunks(c net.Conn, d []byte, chunk int) {
+	writes := 0
 	for len(d) > 0 {
 		k := chunk
 		if k > len(d) {
@@ -48,7 +49,8 @@ func writeChunks(c net.Conn, d []byte, chunk int) {
 			return
 		}
 		d = d[k:]
-		if chunk < 64 {
+		writes++
+		if chunk < 64 && writes < 200 { // pace the first writes only: a nap can take a millisecond on a busy machine
 			time.Sleep(20 * time.Microsecond)
 		}
 	}
@@ -74,7 +76,7 @@ func runC05(line string) string {
 		}
 		defer c.Close()
 		tc := c.(*net.TCPConn)
-		c.SetDeadline(time.Now().Add(8 * time.Second))
+		c.SetDeadline(time.Now().Add(time.Duration(float64(10*time.Second) * loadFactor)))
 		switch order {
 		case "c": // read everything first, then answer
 			got, err := io.ReadAll(c)
@@ -114,7 +116,7 @@ func runC05(line string) string {
 		return "NOT-LISTENING"
 	}
 	tc := c.(*net.TCPConn)
-	c.SetDeadline(time.Now().Add(8 * time.Second))
+	c.SetDeadline(time.Now().Add(time.Duration(float64(10*time.Second) * loadFactor)))
 	var cgot []byte
 	var cerr error
 	switch order {
@@ -134,7 +136,9 @@ func runC05(line string) string {
 	}
 	b := <-bres
 	c.Close()
-	time.Sleep(30 * time.Millisecond)
+	waitFor(3*time.Second, func() bool {
+		return sp.counter("upstream.cx_total") == 1 && sp.counter("upstream.cx_destroy_total") == 1 && sp.gauge("upstream.cx_active") == 0
+	})
 	up := fmt.Sprintf("%d/%d/%d", sp.counter("upstream.cx_total"), sp.counter("upstream.cx_destroy_total"), int64(sp.gauge("upstream.cx_active")))
 	within(3*time.Second, func() { p.Stop() })
 	bi := func(x bool) int {
